@@ -28,7 +28,23 @@ MANIFEST = {
 }
 
 CANON = ("t1.jsonl", "t2.jsonl", "t4.jsonl", "apply.jsonl")
-TEXTS = ["I like apple and banana", "Ünïcode — punctuation!!! apple, banana; cherry pie?", ""]
+TEXTS = ["I like apple and banana", "Ünïcode — punctuation!!! apple, banana; cherry pie?", "",
+         "apple\u3000banana\u00a0cherry\u2003pie\u2028date elder"]
+# elapsed time of the reflection call per timing variant: (for outcome ok, for outcome timeout); budget 6000 ms
+TIMING = [(None, None), (6000.0, 6000.4), (5999.5, 6000.999)]
+
+
+def _uni_episodes():
+    """memory whose snippets join words with non-ASCII whitespace (ideographic space, NBSP, em space, LS)"""
+    from .. import engine as E
+    eps = E.default_episodes()
+    seps = ["\u3000", "\u00a0", "\u2003", "\u2028", "\u3000"]
+    for i, ep in enumerate(eps):
+        words = "apple banana cherry pie story number %d with many words in a row" % i
+        ep2 = E.mk_episode(ep["id"], ep["owner"], seps[i % len(seps)].join(words.split()), ts=ep["ts"],
+                           importance=(ep.get("aux") or {}).get("importance", 0.5), cluster=(ep.get("aux") or {}).get("cluster"))
+        eps[i] = ep2
+    return eps
 
 
 def _canon(records):
@@ -55,12 +71,17 @@ def replay_history(case) -> List[Tuple[str, str]]:
         extra = {"t3": {"reflection": {"summary_tokens": case["tokens"], "topk_snippets": 2}}}
         exc = {"RuntimeError": RuntimeError, "KeyError": KeyError, "OSError": OSError, "ValueError": ValueError}[case["exc"]]
         text = TEXTS[case["text"]]
-        sA = Session(os.path.join(work, "a"), base_cfg=extra, text=text, exc=exc)
-        sB = Session(os.path.join(work, "b"), base_cfg=extra, text=text, exc=exc)          # identical twin: id/ts purity
-        sOff = Session(os.path.join(work, "off"), base_cfg=extra, text=text, exc=exc)      # same history, reflection off
+        eps = (lambda: _uni_episodes()) if case["text"] == 3 else (lambda: None)
+        sA = Session(os.path.join(work, "a"), base_cfg=extra, text=text, exc=exc, episodes=eps())
+        sB = Session(os.path.join(work, "b"), base_cfg=extra, text=text, exc=exc, episodes=eps())          # identical twin: id/ts purity
+        sOff = Session(os.path.join(work, "off"), base_cfg=extra, text=text, exc=exc, episodes=eps())      # same history, reflection off
+        t_ok, t_to = TIMING[case.get("tv", 0)]
         prev_ver, prev_ids = 0, set()
         for ti, step in enumerate(h):
             inp = dict(step["inp"])
+            el = t_to if inp.get("refl_out") == "timeout" else (t_ok if inp.get("refl_out") == "ok" else None)
+            if el is not None:
+                inp["refl_elapsed_ms"] = el
             oA = sA.run(inp)
             oB = sB.run(inp)
             oOff = sOff.run(dict(inp, allow_refl=False, refl_out="ok", faults=[f for f in inp.get("faults", []) if not f.startswith("refl_")]))
@@ -191,13 +212,15 @@ def check(run) -> None:
     run.extra["histories_in_model"] = len(hs)
     # quick: every history whose second turn reuses the context or carries a fault/outcome, and a spread of the rest
     cases = []
-    tokens_all, excs = [0, 1, 3, 128], ["RuntimeError", "KeyError", "OSError", "ValueError"]
+    # 13 / 16: just above the utterance's own length, so the limit cuts inside the first retrieved snippet
+    tokens_all, excs = [0, 1, 3, 13, 16, 128], ["RuntimeError", "KeyError", "OSError", "ValueError"]
     for i, h in enumerate(hs):
         interesting = h[1]["inp"]["reuse"] or any(s["inp"]["faults"] or s["inp"]["refl_out"] != "ok" for s in h)
         stride = (29 if interesting else 211) if q else (1 if interesting else 5)
         if i % stride:
             continue
-        cases.append({"h": h, "tokens": tokens_all[i % 4], "exc": excs[(i // 4) % 4], "text": (i // 16) % 3, "workdir": run.workdir})
+        n = len(cases)
+        cases.append({"h": h, "tokens": tokens_all[n % 6], "exc": excs[(n // 16) % 4], "text": (n // 3) % 4, "tv": (n // 6) % 3, "workdir": run.workdir})
     outs = pmap(replay_history, cases, chunk=4)
     for c, fails in zip(cases, outs):
         run.traces += 1
@@ -209,7 +232,7 @@ def check(run) -> None:
             reuse = bool(c["h"][1]["inp"]["reuse"])
             run.fail(clause, {"clause": clause, "reused_ctx": reuse}, cc, msg, replay={"case": cc})
     run.sample({"history": cases[len(cases) // 2]["h"]}, cap=2)
-    lcases = [{"mode": m, "tokens": t, "workdir": run.workdir} for m in ("nofile", "noentry", "empty", "present") for t in ([3, 128] if q else tokens_all)]
+    lcases = [{"mode": m, "tokens": t, "workdir": run.workdir} for m in ("nofile", "noentry", "empty", "present") for t in ([3, 128] if q else [0, 1, 3, 128])]
     for c, fails in zip(lcases, pmap(llm_case, lcases, procs=4, chunk=1)):
         run.traces += 1
         run.case(("llm", c["mode"], c["tokens"]))
